@@ -227,6 +227,121 @@ theorem state_across_resume (guard₁ guard₂ : Sys S V → Nat → Bool) (sche
   · obtain ⟨_, hsh, _, hperm⟩ := no_lost_update guard₂ sched₂ s' ths₂ h₂
     exact ⟨hsh, hperm⟩
 
+/-! ## interrupt and resume, level by level; one lock also after a resume -/
+
+/-- the top-level resume branch of `runner.run` as extracted from the source -/
+def srcTop : ResumeFacts :=
+  { saves := FactsC11.cpSavesState, restoresFirst := FactsC11.cpRestoredBeforeTasks,
+    setAlways := FactsC11.resumeTopSetAlways, oneHolder := FactsC11.resumeTopOneHolder }
+
+/-- the sub-graph resume branch of `runner.run` as extracted from the source -/
+def srcSub : ResumeFacts :=
+  { saves := FactsC11.cpSavesState, restoresFirst := FactsC11.cpRestoredBeforeTasks,
+    setAlways := FactsC11.resumeSubSetAlways, oneHolder := FactsC11.resumeSubOneHolder }
+
+/-- Source fact tie for the two resume branches: the facts are the ones the oracle runs the
+    model with, and the package allocates a state holder (a mutex) in exactly one place per
+    way of starting a run: `runCtx` and each resume branch. -/
+theorem resume_facts_match :
+    srcTop = Expected.C11.topResume ∧ srcSub = Expected.C11.subResume ∧
+    FactsC11.holderAllocSites = Expected.C11.holderAllocSites ∧
+    FactsC11.holderAllocSites = FactsC11.resumeBranches + 1 := by decide
+
+/-- **state_restored_every_level.** A run interrupted while any number of nested graphs
+    were active (`lv`, outermost first; per level the caller's modifier as it acts there —
+    `none` when the run is resumed without `WithStateModifier` — and the state in that
+    level's context at the interrupt, `none` for a graph without state) is resumed with:
+    every level that had a state sees exactly `modifier(that state)`, which is that state
+    itself when no modifier is passed — never the enclosing graph's, never nothing; a
+    level without state keeps working on what the enclosing level sees. -/
+theorem state_restored_every_level (lv : List (Option (S → S) × Option S)) (ctx : Option S) :
+    let vis := visible ctx (resumePath srcTop srcSub lv)
+    vis.length = lv.length ∧
+    (∀ (i : Nat) m s, lv[i]? = some (m, some s) → vis[i]? = some (some (applyMod m s))) ∧
+    (∀ (i : Nat) s, lv[i]? = some (none, some s) → vis[i]? = some (some s)) ∧
+    (∀ (i : Nat) m, lv[i + 1]? = some (m, none) → vis[i + 1]? = vis[i]?) := by
+  intro vis
+  have ht : srcTop = ⟨true, true, true, true⟩ := by decide
+  have hs : srcSub = ⟨true, true, true, true⟩ := by decide
+  have hown : ∀ (i : Nat) m s, lv[i]? = some (m, some s) → vis[i]? = some (some (applyMod m s)) := by
+    intro i m s h
+    apply visible_own
+    rw [resumePath_get srcTop srcSub lv i m (some s) h]
+    by_cases hi : i = 0
+    · simp only [hi, if_true, ht]; rw [resumeLevel_own rfl rfl rfl]
+    · simp only [hi, if_false, hs]; rw [resumeLevel_own rfl rfl rfl]
+  refine ⟨?_, hown, fun i s h => hown i none s h, ?_⟩
+  · show (visible ctx (resumePath srcTop srcSub lv)).length = lv.length
+    rw [visible_length]
+    cases lv with
+    | nil => rfl
+    | cons x rest => obtain ⟨m, a⟩ := x; simp [resumePath]
+  · intro i m h
+    apply visible_inherited
+    rw [resumePath_get srcTop srcSub lv (i + 1) m none h]
+    simp only [Nat.succ_ne_zero, if_false, resumeLevel_none]
+
+/-- **One lock per run and level, also after a resume.** Tasks rebuilt from the checkpoint
+    (`t < restored`) and tasks the resumed run creates later find the same mutex in their
+    contexts, in both resume branches. -/
+theorem resume_single_lock (restored : Nat) :
+    resumeLockOf srcTop.oneHolder restored = (fun _ => 0) ∧
+    resumeLockOf srcSub.oneHolder restored = (fun _ => 0) := by
+  have ht : srcTop.oneHolder = true := by decide
+  have hs : srcSub.oneHolder = true := by decide
+  rw [ht, hs]; exact ⟨resumeLockOf_one restored, resumeLockOf_one restored⟩
+
+/-- **mutual exclusion and no lost update in a resumed run.** In the machine in which
+    every task uses the mutex its own context carries (`runL`, `resumeLockOf`): for every
+    number of restored tasks, every interleaving of restored and later-created tasks, every
+    scheduling restriction and both resume branches, at most one handler / `ProcessState`
+    callback is inside its user function, the configuration reached is one the atomic
+    machine reaches for a serial order, the state is the serial replay of the committed
+    operations from the restored state `s'` and no operation is lost or duplicated. -/
+theorem no_lost_update_after_resume (top : Bool) (restored : Nat)
+    (guard : SysL S V → Nat → Bool) (sched : List Nat) (s' : S)
+    (ths : List (List (Op S V) × V)) (h : NoGetState ths) :
+    let f := if top then srcTop else srcSub
+    let fin := runL (resumeLockOf f.oneHolder restored) srcLocks.of guard sched (initL s' ths)
+    (∀ i j, fin.phase i ≠ .idle → fin.phase j ≠ .idle → i = j) ∧
+    (∃ order, fin.core = arun order ⟨s', ths, []⟩) ∧
+    fin.core.shared = replay s' fin.core.log ∧
+    Returns s' fin.core.log ∧
+    (fin.core.log.map (·.op) ++ remaining fin.core).Perm (ths.map (·.1)).flatten := by
+  intro f fin
+  have hf : resumeLockOf f.oneHolder restored = fun _ => 0 := by
+    cases top
+    · exact (resume_single_lock restored).2
+    · exact (resume_single_lock restored).1
+  have hfin : fin = embed 0 (run srcLocks.of (fun s t => guard (embed 0 s) t) sched (init s' ths)) := by
+    show runL (resumeLockOf f.oneHolder restored) srcLocks.of guard sched (initL s' ths) = _
+    rw [hf, initL_eq_embed 0, runL_const]
+  have hme := mutual_exclusion (fun s t => guard (embed 0 s) t) sched s' ths h
+  have hnl := no_lost_update (fun s t => guard (embed 0 s) t) sched s' ths h
+  rw [hfin]
+  exact ⟨hme.1, hnl⟩
+
+/-- with commuting updates (counters): N increments give N, whatever the interleaving of
+    restored and later-created tasks -/
+theorem no_lost_update_after_resume_commutative (top : Bool) (restored : Nat)
+    (guard : SysL S V → Nat → Bool) (sched : List Nat) (s' : S)
+    (ths : List (List (Op S V) × V)) (h : NoGetState ths) (g : Op S V → S → S)
+    (hg : ∀ o ∈ (ths.map (·.1)).flatten, ∀ s v,
+        (match o with | .st _ f => (f s v).1 | .loc _ => s) = g o s)
+    (hcomm : ∀ o₁ ∈ (ths.map (·.1)).flatten, ∀ o₂ ∈ (ths.map (·.1)).flatten, ∀ s,
+        g o₂ (g o₁ s) = g o₁ (g o₂ s))
+    (hdone : allDone (runL (resumeLockOf (if top then srcTop else srcSub).oneHolder restored)
+        srcLocks.of guard sched (initL s' ths)).core = true) :
+    (runL (resumeLockOf (if top then srcTop else srcSub).oneHolder restored)
+        srcLocks.of guard sched (initL s' ths)).core.shared
+      = ((ths.map (·.1)).flatten).foldl (fun s o => g o s) s' := by
+  have hf : resumeLockOf (if top then srcTop else srcSub).oneHolder restored = fun _ => 0 := by
+    cases top
+    · exact (resume_single_lock restored).2
+    · exact (resume_single_lock restored).1
+  rw [hf, initL_eq_embed 0, runL_const] at hdone ⊢
+  exact no_lost_update_commutative (fun s t => guard (embed 0 s) t) sched s' ths h g hg hcomm hdone
+
 /-! ## non-vacuity -/
 
 section Examples
@@ -313,5 +428,46 @@ theorem state_shared_if_generated_once :
 theorem state_lost_without_checkpoint_field :
     resumeCtx true (none : Option (Nat → Nat)) (interruptCP false (some 5)) = none ∧
     resumeCtx false (none : Option (Nat → Nat)) (interruptCP true (some 5)) = none := by decide
+
+/-- **Two locks around one state (a second `internalState` for the tasks created after the
+    resume): an update is lost.**  Thread 0 is a task restored from the checkpoint, thread 1
+    a task created later; each takes "the" mutex of its own context, both read 0, both
+    write 1. -/
+theorem lost_update_two_locks_after_resume :
+    let fin := runL (resumeLockOf false 1) Expected.C11.locks.of (fun _ _ => true)
+      [0, 1, 0, 1, 0, 1, 0, 1]
+      (initL 0 [([incOp .process 1], 0), ([incOp .process 1], 0)])
+    allDone fin.core = true ∧ fin.core.shared = 1 ∧
+    resumeLockOf false 1 0 ≠ resumeLockOf false 1 1 := by decide
+
+/-- the same schedule with the lock assignment of the source: the second task waits, both
+    increments arrive -/
+example :
+    let fin := runL (resumeLockOf srcTop.oneHolder 1) srcLocks.of (fun _ _ => true)
+      [0, 1, 0, 1, 0, 1, 0, 1, 1, 1, 1, 1]
+      (initL 0 [([incOp .process 1], 0), ([incOp .process 1], 0)])
+    allDone fin.core = true ∧ fin.core.shared = 2 := by decide
+
+/-- **A sub-graph resume branch that installs the restored state only when a modifier is
+    supplied loses the nested state.**  Resumed without a modifier: under a parent with
+    state the nested graph's nodes work on the parent's state (1 instead of 2); under a
+    stateless parent they find no state at all; with a modifier the same code restores it. -/
+theorem nested_state_lost_without_modifier :
+    let bad : ResumeFacts := { Expected.C11.subResume with setAlways := false }
+    visible none (resumePath Expected.C11.topResume bad
+      [((none : Option (Nat → Nat)), some 1), (none, some 2)]) = [some 1, some 1] ∧
+    visible none (resumePath Expected.C11.topResume bad
+      [((none : Option (Nat → Nat)), none), (none, some 2)]) = [none, none] ∧
+    visible none (resumePath Expected.C11.topResume bad
+      [(some (· + 10), some 1), (some (· + 10), some 2)]) = [some 11, some 12] := by decide
+
+/-- the same three situations with the facts of the source -/
+example :
+    visible none (resumePath srcTop srcSub
+      [((none : Option (Nat → Nat)), some 1), (none, some 2)]) = [some 1, some 2] ∧
+    visible none (resumePath srcTop srcSub
+      [((none : Option (Nat → Nat)), none), (none, some 2)]) = [none, some 2] ∧
+    visible none (resumePath srcTop srcSub
+      [(some (· + 10), some 1), (some (· + 10), some 2)]) = [some 11, some 12] := by decide
 
 end EinoV.C11
